@@ -1,7 +1,7 @@
 (* C05 / C16: `dud status` tells the truth (Model/Cache.v [status_node], [status_file],
    [status_short]) and the Merkle checksum is injective on tracked content.
    Statements are the Props of Proofs/CacheDefs.v. *)
-From Coq Require Import NArith List Bool Sorted Lia.
+From Coq Require Import PeanoNat NArith List Bool Sorted Lia.
 From Coq Require String.
 From DudV Require Import Base.Bytes Base.JsonStr Base.Json Model.Fs Model.Cache Proofs.CacheDefs.
 Import ListNotations.
@@ -107,6 +107,10 @@ Qed.
 
 Lemma filter_all {A} (f : A -> bool) l : (forall x, f x = true) -> filter f l = l.
 Proof. intros Hall. induction l as [|x l IH]; [reflexivity|]. cbn [filter]. rewrite Hall, IH. reflexivity. Qed.
+
+Lemma Forall2_weaken {A B} (R Q : A -> B -> Prop) l1 l2 :
+  (forall a b, R a b -> Q a b) -> Forall2 R l1 l2 -> Forall2 Q l1 l2.
+Proof. intros Himp HF. induction HF; constructor; auto. Qed.
 
 Lemma Forall2_In_l {A B} (R : A -> B -> Prop) l1 l2 x :
   Forall2 R l1 l2 -> In x l1 -> exists y, In y l2 /\ R x y.
@@ -217,6 +221,48 @@ Proof.
   destruct (fold_left step kv (Some (mkMan [] []))) as [m1|] eqn:Ef; [|discriminate].
   destruct (forallb _ _); [|discriminate]. intros Hm. injection Hm as <-.
   eapply Hinv; [|exact Ef]. intros m0 Hm0. injection Hm0 as <-. constructor.
+Qed.
+
+(* ================= cache construction facts ================= *)
+Lemma alookup_ins_sorted {A} d k (v : A) l :
+  alookup d (ins_sorted k v l) = if beqb d k then Some v else alookup d l.
+Proof.
+  induction l as [|[k' v'] l IH]; cbn [ins_sorted alookup].
+  - reflexivity.
+  - destruct (beqb k k') eqn:Ekk.
+    + apply beqb_eq in Ekk. subst k'. cbn [alookup]. destruct (beqb d k); reflexivity.
+    + destruct (bltb k k'); cbn [alookup].
+      * reflexivity.
+      * rewrite IH. destruct (beqb d k') eqn:Edk'; [|reflexivity].
+        apply beqb_eq in Edk'. subst k'. destruct (beqb d k) eqn:Edk; [|reflexivity].
+        apply beqb_eq in Edk. subst k. rewrite beqb_refl in Ekk. discriminate.
+Qed.
+
+Lemma cget_cput c d b d' :
+  cget (cput c d b) d' = if beqb d' d then Some (mkObj b cache_perms) else cget c d'.
+Proof. unfold cget, cput. apply alookup_ins_sorted. Qed.
+
+Lemma cache_ok_nil H : cache_ok H [].
+Proof. intros d o Hg. discriminate. Qed.
+
+Lemma cache_ok_cput H c b : cache_ok H c -> cache_ok H (cput c (H b) b).
+Proof.
+  intros Hc d o Hg. rewrite cget_cput in Hg. destruct (beqb d (H b)) eqn:E.
+  - apply beqb_eq in E. injection Hg as <-. split; [exact E|reflexivity].
+  - exact (Hc d o Hg).
+Qed.
+
+Lemma man_plain_nil : man_plain [].
+Proof. intros d o m Hg. discriminate. Qed.
+
+Lemma man_plain_cput c d b :
+  man_plain c ->
+  (forall m, dec_manifest b = Some m -> Forall (fun kv => plain_child (snd kv)) (m_contents m)) ->
+  man_plain (cput c d b).
+Proof.
+  intros Hc Hb d' o m Hg Hm. rewrite cget_cput in Hg. destruct (beqb d' d).
+  - injection Hg as <-. exact (Hb m Hm).
+  - exact (Hc d' o m Hg Hm).
 Qed.
 
 Section Status.
@@ -901,50 +947,418 @@ Section Status.
       + unfold kept in Hkept. cbn [andb negb] in Hkept. rewrite !filter_all in Hkept by reflexivity.
         now rewrite Hkept.
   Qed.
+
+  (* ================= 4. right after a commit everything is up to date (C05) ================= *)
+
+  (* [utd f c a n]: the entry [n] is up to date for [a] at every level, within fuel [f] *)
+  Definition utd_dir (rec : artifact -> node -> Prop) (c : cache) (a : artifact) (es : list (bytes * node)) : Prop :=
+    exists o m, has_cs (a_cs a) = true /\ cget c (a_cs a) = Some o /\ dec_manifest (o_data o) = Some m /\
+                Forall (fun kv => exists n, alookup (fst kv) es = Some n /\ rec (snd kv) n) (m_contents m) /\
+                untracked (m_contents m) (listed a es) = [].
+  Fixpoint utd (f : nat) (c : cache) (a : artifact) (n : node) : Prop :=
+    match f with
+    | O => False
+    | S f' =>
+      if a_isdir a then match n with Dir es => utd_dir (utd f' c) c a es | _ => False end
+      else a_skip a = false /\ st_cm (status_file H a (Some n) c) = true
+    end.
+
+  Definition all_cm_list (l : list (bytes * stree)) : Prop :=
+    (fix go (l : list (bytes * stree)) : Prop :=
+       match l with [] => True | (_, k) :: r => all_cm k /\ go r end) l.
+
+  Lemma all_cm_St a w h i cm kids : all_cm (St a w h i cm kids) <-> cm = true /\ all_cm_list kids.
+  Proof. reflexivity. Qed.
+
+  Lemma all_cm_cm s : all_cm s -> st_cm s = true.
+  Proof. destruct s. intros [Hc _]. exact Hc. Qed.
+
+  Lemma status_file_shape a slot c : exists w h i cm, status_file H a slot c = St a w h i cm [].
+  Proof.
+    unfold status_file, quick. destruct slot as [[b| | | |]|]; try (do 4 eexists; reflexivity).
+    destruct (a_skip a).
+    - destruct (has_cs (a_cs a)); do 4 eexists; reflexivity.
+    - destruct (cget c (a_cs a)); [destruct (has_cs (a_cs a) && in_cache c (a_cs a))|]; do 4 eexists; reflexivity.
+  Qed.
+
+  Lemma kids_go_all f es c mc :
+    Forall (fun kv => exists n, alookup (fst kv) es = Some n /\
+                      exists s, status_node H f (snd kv) (Some n) c = Ok s /\ all_cm s) mc ->
+    exists l, kids_go f es c mc = Ok (l, true) /\ all_cm_list l.
+  Proof.
+    induction 1 as [|[k ch] mc (n & Hn & s & Hs & Hall) _ (l & Hl & Hal)].
+    - exists []. split; [reflexivity|exact I].
+    - cbn [fst snd] in Hn, Hs. exists ((a_path ch, s) :: l). split.
+      + cbn [kids_go]. fold (kids_go f es c). rewrite Hn, Hs, Hl, (all_cm_cm _ Hall). reflexivity.
+      + split; assumption.
+  Qed.
+
+  Lemma utd_status : forall f c a n, utd f c a n -> exists s, status_node H f a (Some n) c = Ok s /\ all_cm s.
+  Proof.
+    induction f as [|f IH]; intros c a n Hu; [destruct Hu|]. cbn [utd] in Hu.
+    destruct (a_isdir a) eqn:Hd.
+    - destruct n as [| | |es|]; try (exfalso; exact Hu).
+      destruct Hu as (o & m & Hhas & Ho & Hm & Hkids & Hun).
+      destruct (kids_go_all f es c (m_contents m)) as (l & Hl & Hal).
+      { eapply Forall_impl; [|exact Hkids]. intros kv (n & Hn & Hu). exists n. split; [exact Hn|].
+        exact (IH _ _ _ Hu). }
+      rewrite (status_node_dir f a es c Hd). cbv zeta. unfold in_cache.
+      rewrite Hhas, Ho, Hm, Hl. cbn [andb]. rewrite Hun. eexists. split; [reflexivity|].
+      apply all_cm_St. split; [reflexivity|exact Hal].
+    - destruct Hu as [_ Hcm]. rewrite (status_node_file f a _ c Hd). eexists. split; [reflexivity|].
+      destruct (status_file_shape a (Some n) c) as (w & h & i & cm & Hsh). rewrite Hsh in *.
+      apply all_cm_St. split; [exact Hcm|exact I].
+  Qed.
+
+  Lemma utd_S : forall f c a n, utd f c a n -> utd (S f) c a n.
+  Proof.
+    induction f as [|f IH]; intros c a n Hu; [destruct Hu|].
+    change (if a_isdir a then match n with Dir es => utd_dir (utd (S f) c) c a es | _ => False end
+            else a_skip a = false /\ st_cm (status_file H a (Some n) c) = true).
+    cbn [utd] in Hu. destruct (a_isdir a); [|exact Hu].
+    destruct n as [| | |es|]; try exact Hu.
+    destruct Hu as (o & m & Hhas & Ho & Hm & Hkids & Hun). exists o, m. repeat split; try assumption.
+    eapply Forall_impl; [|exact Hkids]. intros kv (n & Hn & Hu). exists n. split; [exact Hn|].
+    exact (IH _ _ _ Hu).
+  Qed.
+
+  Lemma utd_mono f f' c a n : (f <= f')%nat -> utd f c a n -> utd f' c a n.
+  Proof. intros Hle Hu. induction Hle as [|f' _ IH]; [exact Hu|]. apply utd_S. exact IH. Qed.
+
+  Lemma status_file_le c c' a n :
+    cache_le c c' -> a_skip a = false ->
+    st_cm (status_file H a (Some n) c) = true -> st_cm (status_file H a (Some n) c') = true.
+  Proof.
+    intros Hle Hskip Hcm. destruct n as [b|d|t|es|].
+    - rewrite (status_file_file a b c Hskip) in Hcm. rewrite (status_file_file a b c' Hskip).
+      destruct (cget c (a_cs a)) as [o|] eqn:Ho; [|discriminate Hcm].
+      destruct (Hle _ _ Ho) as (o' & Ho' & Hd). rewrite Ho', Hd. exact Hcm.
+    - rewrite status_file_nonfile in Hcm by discriminate. rewrite status_file_nonfile by discriminate.
+      apply qmatch_true in Hcm as (Hh & (o & Ho) & He). apply qmatch_true.
+      destruct (Hle _ _ Ho) as (o' & Ho' & _). split; [exact Hh|]. split; [exists o'; exact Ho'|exact He].
+    - rewrite status_file_nonfile in Hcm by discriminate. apply qmatch_true in Hcm as (_ & _ & He). discriminate.
+    - rewrite status_file_nonfile in Hcm by discriminate. apply qmatch_true in Hcm as (_ & _ & He). discriminate.
+    - rewrite status_file_nonfile in Hcm by discriminate. apply qmatch_true in Hcm as (_ & _ & He). discriminate.
+  Qed.
+
+  Lemma utd_le c c' : cache_le c c' -> forall f a n, utd f c a n -> utd f c' a n.
+  Proof.
+    intros Hle. induction f as [|f IH]; intros a n Hu; [destruct Hu|]. cbn [utd] in *.
+    destruct (a_isdir a).
+    - destruct n as [| | |es|]; try exact Hu.
+      destruct Hu as (o & m & Hhas & Ho & Hm & Hkids & Hun).
+      destruct (Hle _ _ Ho) as (o' & Ho' & Hd). exists o', m. rewrite Hd. repeat split; try assumption.
+      eapply Forall_impl; [|exact Hkids]. intros kv (n & Hn & Hu). exists n. split; [exact Hn|].
+      exact (IH _ _ Hu).
+    - destruct Hu as [Hskip Hcm]. split; [exact Hskip|]. eapply status_file_le; eassumption.
+  Qed.
+
+  (* ---- commit, unfolded ---- *)
+  Definition child_of (old : list (bytes * artifact)) (name : bytes) (ch : node) : artifact :=
+    match alookup name old with
+    | Some oa => if Bool.eqb (a_isdir oa) (is_dir ch) then oa else fresh_art name (is_dir ch)
+    | None => fresh_art name (is_dir ch)
+    end.
+
+  Definition commit_go (a : artifact) (old : list (bytes * artifact)) (st : strategy) :=
+    fix go (es : list (bytes * node)) (c : cache)
+      : res (list (bytes * node) * cache * list (bytes * artifact)) :=
+      match es with
+      | [] => Ok ([], c, [])
+      | (name, ch) :: r =>
+        if a_norec a && is_dir ch then
+          match go r c with
+          | Ok (es', c', m) => Ok ((name, ch) :: es', c', m)
+          | Err => Err
+          end
+        else if negb (utf8_name name) then Err
+        else
+          match commit_node H (child_of old name ch) ch c st with
+          | Err => Err
+          | Ok (ch', c1, child') =>
+            match go r c1 with
+            | Ok (es', c2, m) => Ok ((name, ch') :: es', c2, (a_path child', child') :: m)
+            | Err => Err
+            end
+          end
+      end.
+
+  Lemma commit_node_dir a es c st : a_isdir a = true ->
+    commit_node H a (Dir es) c st =
+    match old_contents a c with
+    | Err => Err
+    | Ok old =>
+      match commit_go a old st es c with
+      | Err => Err
+      | Ok (es', c', m) =>
+        let mb := enc_manifest (mkMan (a_path a) m) in
+        Ok (Dir es', cput c' (H mb) mb, set_cs a (H mb))
+      end
+    end.
+  Proof. intros Hd. cbn [commit_node]. rewrite Hd. reflexivity. Qed.
+
+  Lemma commit_node_file a b c st : a_isdir a = false ->
+    commit_node H a (File b) c st = commit_file H a (File b) c st.
+  Proof. intros Hd. cbn [commit_node]. rewrite Hd. reflexivity. Qed.
+
+  (* files whose bytes happen to decode as a manifest carry no flagged entries *)
+  Fixpoint benign (n : node) : Prop :=
+    match n with
+    | File b => forall m, dec_manifest b = Some m -> Forall (fun kv => plain_child (snd kv)) (m_contents m)
+    | Dir es => (fix all (l : list (bytes * node)) : Prop :=
+                   match l with [] => True | (_, ch) :: r => benign ch /\ all r end) es
+    | _ => True
+    end.
+
+  Lemma benign_dir es : benign (Dir es) -> forall e, In e es -> benign (snd e).
+  Proof.
+    cbn [benign]. induction es as [|[k n] es IH]; intros Hall e Hin; [destruct Hin|].
+    destruct Hall as [Hn Hall]. destruct Hin as [<-|Hin]; [exact Hn|exact (IH Hall e Hin)].
+  Qed.
+
+  Lemma cache_le_refl c : cache_le c c.
+  Proof. intros d o Ho. exists o. split; [exact Ho|reflexivity]. Qed.
+
+  Lemma cache_le_trans c1 c2 c3 : cache_le c1 c2 -> cache_le c2 c3 -> cache_le c1 c3.
+  Proof.
+    intros H12 H23 d o Ho. destruct (H12 _ _ Ho) as (o2 & Ho2 & Hd2).
+    destruct (H23 _ _ Ho2) as (o3 & Ho3 & Hd3). exists o3. split; [exact Ho3|congruence].
+  Qed.
+
+  Lemma cput_le c b : H_inj H -> cache_ok H c -> cache_le c (cput c (H b) b).
+  Proof.
+    intros Hinj Hc d o Ho. rewrite cget_cput. destruct (beqb d (H b)) eqn:E.
+    - apply beqb_eq in E. eexists. split; [reflexivity|]. cbn [o_data].
+      destruct (Hc _ _ Ho) as [Hd _]. apply Hinj. congruence.
+    - exists o. split; [exact Ho|reflexivity].
+  Qed.
+
+  Lemma dec_manifest_keys b m : dec_manifest b = Some m ->
+    Forall (fun kv => a_path (snd kv) = fst kv /\ valid_entry_name (fst kv) = true) (m_contents m).
+  Proof.
+    unfold dec_manifest. destruct (parse_json b) as [v|]; [|discriminate].
+    unfold dec_manifest_v. destruct v as [| | | | |kv]; try discriminate.
+    destruct (fold_left _ kv _) as [m1|]; [|discriminate].
+    destruct (forallb _ (m_contents m1)) eqn:Hf; [|discriminate]. intros Hm. injection Hm as <-.
+    rewrite forallb_forall in Hf. apply Forall_forall. intros kv' Hin. specialize (Hf kv' Hin).
+    apply andb_true_iff in Hf as [Hp Hv]. apply beqb_eq in Hp. split; assumption.
+  Qed.
+
+  Definition old_ok (old : list (bytes * artifact)) : Prop :=
+    Forall (fun kv => a_path (snd kv) = fst kv /\ plain_child (snd kv)) old.
+
+  Lemma old_contents_ok a c old : man_plain c -> old_contents a c = Ok old -> old_ok old.
+  Proof.
+    intros Hmp. unfold old_contents. destruct (has_cs (a_cs a)).
+    2:{ intros Ho. injection Ho as <-. constructor. }
+    destruct (cget c (a_cs a)) as [o|] eqn:Ho.
+    2:{ intros Ho'. injection Ho' as <-. constructor. }
+    destruct (dec_manifest (o_data o)) as [m|] eqn:Hm; [|discriminate]. intros Ho'. injection Ho' as <-.
+    pose proof (Hmp _ _ _ Ho Hm) as Hpl. pose proof (dec_manifest_keys _ _ Hm) as Hk.
+    unfold old_ok. rewrite Forall_forall in *. intros kv Hin. split; [apply Hk; exact Hin|apply Hpl; exact Hin].
+  Qed.
+
+  Lemma child_of_props old name ch :
+    old_ok old ->
+    a_path (child_of old name ch) = name /\ plain_child (child_of old name ch) /\
+    kind_ok (child_of old name ch) ch.
+  Proof.
+    intros Hold. unfold child_of, kind_ok. destruct (alookup name old) as [oa|] eqn:Hl.
+    - destruct (Bool.eqb (a_isdir oa) (is_dir ch)) eqn:Ee.
+      + apply alookup_In in Hl. unfold old_ok in Hold. rewrite Forall_forall in Hold.
+        destruct (Hold _ Hl) as [Hp Hpl]. cbn [fst snd] in Hp, Hpl.
+        split; [exact Hp|]. split; [exact Hpl|]. apply eqb_prop. exact Ee.
+      + repeat split.
+    - repeat split.
+  Qed.
+
+  (* ---- the invariant carried through commit ---- *)
+  Definition commit_post (a : artifact) (n : node) (c : cache) (n' : node) (c' : cache) (a' : artifact) : Prop :=
+    cache_ok H c' /\ man_plain c' /\ cache_le c c' /\
+    a_path a' = a_path a /\ a_isdir a' = a_isdir a /\ a_norec a' = a_norec a /\ a_skip a' = a_skip a /\
+    wf_text (a_cs a') /\ is_dir n' = is_dir n /\ exists f, utd f c' a' n'.
+
+  Definition PC (n : node) : Prop :=
+    forall a c st n' c' a',
+      plain n -> benign n -> cache_ok H c -> man_plain c -> kind_ok a n -> wf_text (a_path a) ->
+      a_skip a = false -> commit_node H a n c st = Ok (n', c', a') -> commit_post a n c n' c' a'.
+
+  Section CommitFacts.
+    Hypothesis Hinj : H_inj H.
+    Hypothesis Hhas : H_has H.
+    Hypothesis Htext : H_text H.
+    Hypothesis Hcodec : codec_ok.
+
+    Lemma PC_file b : PC (File b).
+    Proof.
+      intros a c st n' c' a' _ Hben Hc Hmp Hk Hwp Hskip Hcommit.
+      unfold kind_ok in Hk. cbn [is_dir] in Hk. rewrite (commit_node_file a b c st Hk) in Hcommit.
+      unfold commit_file in Hcommit.
+      assert (Hq : qmatch c (a_cs a) (Some (File b)) = false).
+      { destruct (qmatch c (a_cs a) (Some (File b))) eqn:Hq; [|reflexivity].
+        apply qmatch_true in Hq as (_ & _ & He). discriminate. }
+      rewrite Hq, Hskip in Hcommit.
+      assert (Hpost : forall n1, (n1 = File b \/ n1 = LinkC (H b)) ->
+                commit_post a (File b) c n1 (cput c (H b) b) (set_cs a (H b))).
+      { intros n1 Hn1. unfold commit_post. cbn [set_cs a_path a_isdir a_norec a_skip a_cs].
+        assert (Hc' : cache_ok H (cput c (H b) b)) by (apply cache_ok_cput; exact Hc).
+        split; [exact Hc'|]. split; [apply man_plain_cput; [exact Hmp|exact Hben]|].
+        split; [apply cput_le; assumption|]. repeat (split; [reflexivity|]).
+        split; [apply Htext|]. split; [destruct Hn1 as [->| ->]; reflexivity|].
+        exists 1%nat. cbn [utd a_isdir a_skip set_cs]. rewrite Hk. split; [exact Hskip|].
+        eapply file_complete with (o := mkObj b cache_perms); [exact Hc'|exact Hskip|apply Hhas| |].
+        - cbn [a_cs]. rewrite cget_cput, beqb_refl. reflexivity.
+        - destruct Hn1 as [->| ->]; [reflexivity|]. cbn [logical]. rewrite cget_cput, beqb_refl. reflexivity. }
+      destruct st; injection Hcommit as <- <- <-; apply Hpost; [right|left]; reflexivity.
+    Qed.
+
+    (* what the loop over the entries establishes *)
+    Definition go_post (a : artifact) (es : list (bytes * node)) (c : cache)
+               (es' : list (bytes * node)) (c' : cache) (m : list (bytes * artifact)) : Prop :=
+      cache_ok H c' /\ man_plain c' /\ cache_le c c' /\
+      map fst es' = map fst es /\
+      Forall2 (fun e' kv => fst kv = fst e' /\ a_path (snd kv) = fst e' /\ plain_child (snd kv) /\
+                            wf_text (a_cs (snd kv)) /\ exists f, utd f c' (snd kv) (snd e'))
+              (listed a es') m.
+
+    Lemma PC_go a old st es :
+      old_ok old ->
+      Forall (fun e => PC (snd e)) es ->
+      forall c es' c' m,
+        (forall e, In e es -> good_name (fst e) /\ plain (snd e) /\ benign (snd e)) ->
+        cache_ok H c -> man_plain c ->
+        commit_go a old st es c = Ok (es', c', m) -> go_post a es c es' c' m.
+    Proof.
+      intros Hold HIH. induction HIH as [|[name ch] es IHe _ IHr]; intros c es' c' m Hes Hc Hmp Hgo.
+      - cbn [commit_go] in Hgo. injection Hgo as <- <- <-. unfold go_post.
+        split; [exact Hc|]. split; [exact Hmp|]. split; [apply cache_le_refl|]. split; [reflexivity|].
+        constructor.
+      - cbn [commit_go] in Hgo. fold (commit_go a old st) in Hgo. cbn [snd] in IHe.
+        assert (Hes_r : forall e, In e es -> good_name (fst e) /\ plain (snd e) /\ benign (snd e)).
+        { intros e He. apply Hes. right; exact He. }
+        destruct (a_norec a && is_dir ch) eqn:Hsk.
+        + (* sub-directory of a non-recursive artifact: left alone *)
+          destruct (commit_go a old st es c) as [[[es1 c1] m1]|] eqn:Hgo1; [|discriminate].
+          injection Hgo as <- <- <-.
+          destruct (IHr c es1 c1 m1 Hes_r Hc Hmp Hgo1) as (Hc1 & Hmp1 & Hle1 & Hk1 & HF1).
+          unfold go_post. repeat (split; [assumption|]). split; [cbn [map fst]; now rewrite Hk1|].
+          unfold listed. cbn [filter snd]. rewrite Hsk. cbn [negb]. exact HF1.
+        + destruct (negb (utf8_name name)); [discriminate|].
+          destruct (commit_node H (child_of old name ch) ch c st) as [[[ch' c1] child']|] eqn:Hch; [|discriminate].
+          destruct (commit_go a old st es c1) as [[[es2 c2] m2]|] eqn:Hgo2; [|discriminate].
+          injection Hgo as <- <- <-.
+          destruct (Hes (name, ch) (or_introl eq_refl)) as ((Hu & Hv & Hb) & Hpl & Hben). cbn [fst snd] in *.
+          destruct (child_of_props old name ch Hold) as (Hcp & [Hcnr Hcsk] & Hck).
+          assert (Hwn : wf_text (a_path (child_of old name ch))) by (rewrite Hcp; split; assumption).
+          destruct (IHe _ c st ch' c1 child' Hpl Hben Hc Hmp Hck Hwn Hcsk Hch)
+            as (Hc1 & Hmp1 & Hle1 & Hp' & Hd' & Hnr' & Hsk' & Hwcs & Hisd & (f1 & Hu1)).
+          destruct (IHr c1 es2 c2 m2 Hes_r Hc1 Hmp1 Hgo2) as (Hc2 & Hmp2 & Hle2 & Hk2 & HF2).
+          unfold go_post. split; [exact Hc2|]. split; [exact Hmp2|].
+          split; [eapply cache_le_trans; eassumption|]. split; [cbn [map fst]; now rewrite Hk2|].
+          unfold listed. cbn [filter snd]. rewrite Hisd, Hsk. cbn [negb]. constructor; [|exact HF2].
+          cbn [fst snd]. rewrite Hp', Hcp. split; [reflexivity|]. split; [reflexivity|].
+          split; [split; congruence|]. split; [exact Hwcs|].
+          exists f1. eapply utd_le; eassumption.
+    Qed.
+
+    Lemma Forall2_common_fuel c (L : list (bytes * node)) (m : list (bytes * artifact)) (Q : bytes * node -> bytes * artifact -> Prop) :
+      Forall2 (fun e' kv => Q e' kv /\ exists f, utd f c (snd kv) (snd e')) L m ->
+      exists F, Forall2 (fun e' kv => Q e' kv /\ utd F c (snd kv) (snd e')) L m.
+    Proof.
+      induction 1 as [|e' kv L m [HQ (f & Hu)] _ (F & HF)].
+      - exists O. constructor.
+      - exists (Nat.max f F). constructor.
+        + split; [exact HQ|]. eapply utd_mono; [|exact Hu]. apply Nat.le_max_l.
+        + eapply Forall2_weaken; [|exact HF]. intros x y [HQ' Hu']. split; [exact HQ'|].
+          eapply utd_mono; [|exact Hu']. apply Nat.le_max_r.
+    Qed.
+
+    Lemma PC_dir es : Forall (fun e => PC (snd e)) es -> PC (Dir es).
+    Proof.
+      intros HIH a c st n' c' a' Hpl Hben Hc Hmp Hk Hwp Hskip Hcommit.
+      unfold kind_ok in Hk. cbn [is_dir] in Hk. rewrite (commit_node_dir a es c st Hk) in Hcommit.
+      destruct (old_contents a c) as [old|] eqn:Hold; [|discriminate].
+      destruct (commit_go a old st es c) as [[[es' c1] m]|] eqn:Hgo; [|discriminate].
+      cbv zeta in Hcommit. injection Hcommit as <- <- <-.
+      apply plain_dir_inv in Hpl as [Hs Hall].
+      assert (Hes : forall e, In e es -> good_name (fst e) /\ plain (snd e) /\ benign (snd e)).
+      { intros e He. destruct (Hall e He) as [Hg Hp]. split; [exact Hg|]. split; [exact Hp|].
+        exact (benign_dir es Hben e He). }
+      destruct (PC_go a old st es (old_contents_ok a c old Hmp Hold) HIH c es' c1 m Hes Hc Hmp Hgo)
+        as (Hc1 & Hmp1 & Hle1 & Hkeys & HF).
+      set (mb := enc_manifest (mkMan (a_path a) m)).
+      assert (Hses' : ksorted es').
+      { apply ksorted_keys. rewrite Hkeys. apply ksorted_keys. exact Hs. }
+      assert (Hnames : forall e', In e' es' -> good_name (fst e')).
+      { intros e' He'. assert (Hin : In (fst e') (map fst es)) by (rewrite <- Hkeys; apply in_map; exact He').
+        apply in_map_iff in Hin as (e & He & Hin). rewrite <- He. apply Hall. exact Hin. }
+      assert (Hwf : wf_manifest (mkMan (a_path a) m)).
+      { unfold wf_manifest. cbn [m_path m_contents]. split; [exact Hwp|]. split.
+        - change (ksorted m). apply ksorted_keys.
+          rewrite (Forall2_keys _ _ _ HF) by (intros x y [Hxy _]; exact Hxy).
+          apply ksorted_keys. apply ksorted_filter. exact Hses'.
+        - apply Forall_forall. intros kv Hin.
+          destruct (Forall2_In_r _ _ _ _ HF Hin) as (e' & He' & Hk' & Hp' & Hpc & Hwcs & _).
+          apply filter_In in He' as [He' _]. destruct (Hnames _ He') as (Hu & Hv & Hb).
+          rewrite Hk'. split; [exact Hp'|]. split; [exact Hv|]. split; [split; [exact Hu|exact Hb]|].
+          split; [exact Hwcs|exact Hpc]. }
+      pose proof (Hcodec _ Hwf) as Hdec. fold mb in Hdec.
+      assert (Hc2 : cache_ok H (cput c1 (H mb) mb)) by (apply cache_ok_cput; exact Hc1).
+      assert (Hle2 : cache_le c1 (cput c1 (H mb) mb)) by (apply cput_le; assumption).
+      unfold commit_post. cbn [set_cs a_path a_isdir a_norec a_skip a_cs is_dir].
+      split; [exact Hc2|]. split.
+      { apply man_plain_cput; [exact Hmp1|]. intros m0 Hm0. rewrite Hdec in Hm0. injection Hm0 as <-.
+        cbn [m_contents]. apply Forall_forall. intros kv Hin.
+        destruct (Forall2_In_r _ _ _ _ HF Hin) as (e' & _ & _ & _ & Hpc & _). exact Hpc. }
+      split; [eapply cache_le_trans; eassumption|]. repeat (split; [reflexivity|]).
+      split; [apply Htext|]. split; [reflexivity|].
+      destruct (Forall2_common_fuel c1 (listed a es') m (fun e' kv => fst kv = fst e')) as (F & HFF).
+      { eapply Forall2_weaken; [|exact HF]. intros x y (Hxy & _ & _ & _ & Hex). split; [exact Hxy|exact Hex]. }
+      exists (S F). cbn [utd a_isdir set_cs]. rewrite Hk.
+      exists (mkObj mb cache_perms), (mkMan (a_path a) m). cbn [a_cs o_data m_contents].
+      split; [apply Hhas|]. split; [rewrite cget_cput, beqb_refl; reflexivity|]. split; [exact Hdec|].
+      change (listed (mkArt (H mb) (a_path a) true (a_norec a) (a_skip a)) es') with (listed a es').
+      split.
+      - apply Forall_forall. intros kv Hin.
+        destruct (Forall2_In_r _ _ _ _ HFF Hin) as ([k' n1] & He' & Hk' & Hu).
+        cbn [fst snd] in Hk', Hu. apply filter_In in He' as [He' _].
+        exists n1. split; [rewrite Hk'; apply alookup_sorted_In; assumption|].
+        eapply utd_le; eassumption.
+      - apply filter_nil_iff. intros e' He'.
+        destruct (Forall2_In_l _ _ _ _ HFF He') as ([k ch] & Hin & Hk' & _). cbn [fst] in Hk'. subst k.
+        pose proof (alookup_key_in _ _ _ Hin) as Hne.
+        destruct (alookup (fst e') m); [reflexivity|congruence].
+    Qed.
+
+    Lemma PC_all n : PC n.
+    Proof.
+      induction n as [b|d|t| |es IH] using node_ind2.
+      - apply PC_file.
+      - intros a c st n' c' a' Hpl. inversion Hpl.
+      - intros a c st n' c' a' Hpl. inversion Hpl.
+      - intros a c st n' c' a' Hpl. inversion Hpl.
+      - apply PC_dir. exact IH.
+    Qed.
+  End CommitFacts.
+
+  (* C05, with the premise [benign n] (a file whose bytes decode as a manifest with flagged
+     entries would break [man_plain] for the caches in the middle of the commit, and [codec_ok]
+     only speaks about flag-free entries); [man_closed] of [cache_inv] is not needed *)
+  Definition stmt_status_after_commit_benign : Prop :=
+    H_inj H -> H_has H -> H_text H -> codec_ok -> forall a n c st n' c' a',
+      plain n -> benign n -> kind_ok a n -> top_art a -> cache_inv H c ->
+      commit_node H a n c st = Ok (n', c', a') ->
+      exists fuel s, status_node H fuel a' (Some n') c' = Ok s /\ all_cm s.
+
+  Theorem status_after_commit_benign : stmt_status_after_commit_benign.
+  Proof.
+    intros Hinj Hhas Htext Hcodec a n c st n' c' a' Hpl Hben Hk [Hwp Hskip] (Hc & Hmp & _) Hcommit.
+    destruct (PC_all Hinj Hhas Htext Hcodec n a c st n' c' a' Hpl Hben Hc Hmp Hk Hwp Hskip Hcommit)
+      as (_ & _ & _ & _ & _ & _ & _ & _ & _ & (f & Hu)).
+    exists f. apply utd_status. exact Hu.
+  Qed.
 End Status.
 
-
-(* ================= cache construction facts ================= *)
-Lemma alookup_ins_sorted {A} d k (v : A) l :
-  alookup d (ins_sorted k v l) = if beqb d k then Some v else alookup d l.
-Proof.
-  induction l as [|[k' v'] l IH]; cbn [ins_sorted alookup].
-  - reflexivity.
-  - destruct (beqb k k') eqn:Ekk.
-    + apply beqb_eq in Ekk. subst k'. cbn [alookup]. destruct (beqb d k); reflexivity.
-    + destruct (bltb k k'); cbn [alookup].
-      * reflexivity.
-      * rewrite IH. destruct (beqb d k') eqn:Edk'; [|reflexivity].
-        apply beqb_eq in Edk'. subst k'. destruct (beqb d k) eqn:Edk; [|reflexivity].
-        apply beqb_eq in Edk. subst k. rewrite beqb_refl in Ekk. discriminate.
-Qed.
-
-Lemma cget_cput c d b d' :
-  cget (cput c d b) d' = if beqb d' d then Some (mkObj b cache_perms) else cget c d'.
-Proof. unfold cget, cput. apply alookup_ins_sorted. Qed.
-
-Lemma cache_ok_nil H : cache_ok H [].
-Proof. intros d o Hg. discriminate. Qed.
-
-Lemma cache_ok_cput H c b : cache_ok H c -> cache_ok H (cput c (H b) b).
-Proof.
-  intros Hc d o Hg. rewrite cget_cput in Hg. destruct (beqb d (H b)) eqn:E.
-  - apply beqb_eq in E. injection Hg as <-. split; [exact E|reflexivity].
-  - exact (Hc d o Hg).
-Qed.
-
-Lemma man_plain_nil : man_plain [].
-Proof. intros d o m Hg. discriminate. Qed.
-
-Lemma man_plain_cput c d b :
-  man_plain c ->
-  (forall m, dec_manifest b = Some m -> Forall (fun kv => plain_child (snd kv)) (m_contents m)) ->
-  man_plain (cput c d b).
-Proof.
-  intros Hc Hb d' o m Hg Hm. rewrite cget_cput in Hg. destruct (beqb d' d).
-  - injection Hg as <-. exact (Hb m Hm).
-  - exact (Hc d' o m Hg Hm).
-Qed.
 
 (* ================= counterexamples to [stmt_status_iff] as stated in CacheDefs ================= *)
 Module Cex.
@@ -1070,5 +1484,6 @@ Print Assumptions status_iff_strong.
 Print Assumptions status_iff_fixed.
 Print Assumptions status_iff_recursive.
 Print Assumptions merkle_inj.
+Print Assumptions status_after_commit_benign.
 Print Assumptions Cex.status_iff_needs_H_has.
 Print Assumptions Cex.status_iff_needs_norec_flat.
